@@ -26,7 +26,7 @@ import numpy as np
 
 from .. import common
 from . import staticlink
-from ..fmutil import T, ad, err_class, fm, scalar, td, us
+from ..fmutil import limited, T, ad, err_class, fm, scalar, td, us
 
 MODULES = ["Connect", "ConnectLemmas"]
 GEN_OBLIGATIONS = []
@@ -311,7 +311,7 @@ def run_impl(spec, order, link_order=None):
         cur >> nodes[c].inputs[f"In{i}"]
     outcome, err, names, msg = "ok", None, None, None
     try:
-        composition.connect(T(spec["start"]) if spec.get("explicit_start", True) else None)
+        limited(60, composition.connect, T(spec["start"]) if spec.get("explicit_start", True) else None)
     except LoopGuard as e:
         outcome, msg = "loop", str(e)
     except fm.FinamCircularCouplingError as e:
